@@ -25,6 +25,7 @@ func main() {
 	goos := flag.String("goos", "", "GOOS for loading")
 	goarch := flag.String("goarch", "", "GOARCH for loading")
 	extraFile := flag.String("extra", "", "JSON object merged into coverage (thorough tier: configurations, sensitivity)")
+	listAll := flag.Bool("list", false, "print every obligation")
 	noEvidence := flag.Bool("no-evidence", false, "print the report only (used by the mutant sensitivity runs)")
 	flag.Parse()
 	if *prop == "list" {
@@ -85,6 +86,11 @@ func main() {
 					extra[k] = v
 				}
 			}
+		}
+	}
+	if *listAll {
+		for _, o := range res.Obls {
+			fmt.Printf("  %-10s %-8s [%s] %s: %s\n", o.Status, o.Rule, o.Pos, o.Construct, o.Detail)
 		}
 	}
 	code := res.Finish(vd, *tier, seed, time.Since(start).Seconds(), known, extra)
